@@ -639,3 +639,48 @@ def h_bounded_named(inp, body):
     import bounded
     res = getattr(bounded, inp["what"])(inp)["checks"][inp["check"]]
     return {"reproduced": not res["ok"], "observed": res.get("witness")}
+
+
+def h_element_junction_tuples(inp, body):
+    from pandapipes.toolbox import element_junction_tuples
+    return {"reproduced": True, "observed": sorted(list(x) for x in element_junction_tuples())}
+
+
+def _full_net(pp, jl, pl):
+    """a heat network with every component type; jl / pl: junction and pipe labels"""
+    net = pp.create_empty_network(fluid="water")
+    for k in range(8):
+        pp.create_junction(net, 5., 330., index=jl[k])
+    pp.create_ext_grid(net, jl[0], 5., 330.)
+    pp.create_pipe_from_parameters(net, jl[0], jl[1], 0.2, 100., index=pl[0], u_w_per_m2k=5.)
+    pp.create_pipe_from_parameters(net, jl[1], jl[2], 0.3, 100., index=pl[1], sections=2, u_w_per_m2k=5.)
+    pp.create_pipe_from_parameters(net, jl[2], jl[3], 0.2, 80., index=pl[2], u_w_per_m2k=5.)
+    pp.create_valve(net, jl[1], pl[1], "pi", 100., opened=True)
+    pp.create_valve(net, jl[1], jl[4], "ju", 80., opened=True)
+    pp.create_pipe_from_parameters(net, jl[4], jl[5], 0.1, 80., index=pl[3], u_w_per_m2k=5.)
+    pp.create_pressure_control(net, jl[5], jl[6], jl[6], 3.5)
+    pp.create_pipe_from_parameters(net, jl[6], jl[7], 0.1, 80., index=pl[4], u_w_per_m2k=5.)
+    pp.create_sink(net, jl[3], 0.4)
+    pp.create_sink(net, jl[7], 0.2)
+    pp.create_heat_exchanger(net, jl[2], jl[3], 5000., 80.)
+    return net
+
+
+def h_toolbox_pipe_valve(inp, body):
+    """relabelling junctions of a net with a pipe-attached valve whose pipe label is not a junction label"""
+    import pandapipes as pp
+    net = _full_net(pp, [0, 1, 2, 3, 4, 5, 6, 7], [10, 11, 12, 13, 14])
+    lookup = {j: j + 100 for j in net.junction.index}
+    try:
+        pp.reindex_junctions(net, lookup)
+    except Exception as e:  # noqa
+        return {"reproduced": True, "observed": "reindex_junctions raised %s: %s" % (type(e).__name__, str(e)[:120])}
+    return {"reproduced": net.valve.element.tolist()[0] != 11, "observed": {"valve.element": net.valve.element.tolist()}}
+
+
+def h_toolbox_drop_pipe_valve(inp, body):
+    import pandapipes as pp
+    net = _full_net(pp, [0, 1, 2, 3, 4, 5, 6, 7], [10, 11, 12, 13, 14])
+    pp.drop_pipes(net, [11])
+    dangling = net.valve[(net.valve.et == "pi") & ~net.valve.element.isin(net.pipe.index)]
+    return {"reproduced": len(dangling) > 0, "observed": {"valves referencing a missing pipe": dangling.element.tolist()}}
